@@ -37,7 +37,7 @@
 From ASModel Require Import Base State Orderings_gen Step Run Progress Hist Local Inv InvTl InvProto InvStep Sum StepCases.
 From ASModel Require Import GenDefs Gen1 Gen2 Gen EnvDefs Env4 Env AccDefs Acc1 Acc2 Acc3 Acc4 Acc5 Acc6 Acc7 Acc.
 From ASModel Require Import ProtDefs Prot1 Prot11 Prot16 Prot Typed LinDefs Lin2 Lin Safe1 Safe2 Safe7 Safe8 Safe Main.
-From ASModel Require Import Stale2 Stale2Inv.
+From ASModel Require Import Stale2 Stale2Inv Stale2W.
 
 Theorem C10_drop_anywhere : forall cf s l l2 v sl x,
   fst (fst (fst (exec cf s l (GD1 v sl) x))) = fst (fst (fst (exec cf s l2 (GD1 v sl) x))) /\
@@ -115,3 +115,13 @@ Qed.
 
 Print Assumptions C10_every_state_of_a_run_stale2.
 Print Assumptions C10_guard_keeps_value_stale2.
+
+Theorem C10_guard_keeps_identity_stale2 :
+  forall cf s t x h a,
+    GenBound s -> ProgOK s -> alloc_ok s t x -> stale2_ok s t x -> Master s ->
+    (hnd s h = HOwned a \/ exists d, hnd s h = HGuard a d) -> valid a ->
+    hnd (fst (step_stale2 cf s t x)) h = hnd s h ->
+    heap (sh (fst (step_stale2 cf s t x))) a = heap (sh s) a /\ heap (sh s) a <> None.
+Proof. exact Stale2W1.C10_guard_keeps_identity_stale2. Qed.
+
+Print Assumptions C10_guard_keeps_identity_stale2.
